@@ -143,4 +143,11 @@ PROPS = {
             R("h26", "c06", "TestC06_Model", (4000, 8, 1500), (300000, 16, 8000)),
         ],
     },
+    "C07": {
+        "level": "exploration",
+        "units": [
+            R("h26", "c07", "TestC07_Bubble", (1500, 8, 1500), (100000, 16, 8000)),
+            R("h26", "c07", "TestC07_Race", (300, 6, 1500), (6000, 8, 8000), race=True),
+        ],
+    },
 }
